@@ -1,7 +1,7 @@
 import AL.Props.C09Rules
 /-
-  C02 on AL.Rules.lint (tied by `lintwf`): the model is a function of the node tree (no map order, no schedule: the tie
-  shows on every run that the real linter's output for the modelled kinds equals this function); its last step is the
+  C02 on AL.Rules.lint (tied by `lintwf`): the model is a function of the node tree and of the configuration handed to the
+  rules — runner labels, known zone names — (no map order, no clock: the CRON check starts from the epoch; the tie shows on every run that the real linter's output for the modelled kinds equals this function); its last step is the
   stable sort of `Linter.check`, which reports every diagnostic exactly once, in non-decreasing position order, and keeps
   the emission order among diagnostics at one position.
 -/
@@ -51,7 +51,7 @@ theorem sort_sorted (l : List Diag) : (stableSort l).Pairwise le := by
   exact this l [] List.Pairwise.nil
 
 /-- the whole model is a function of the document node (and of what strconv / ToLower say about its scalars) -/
-theorem lint_deterministic (cfg : AL.PW.Cfg) (isNum urlOk : String → Bool) (doc doc' : AL.Yaml.Node) (h : doc = doc') :
-    lint cfg isNum urlOk doc = lint cfg isNum urlOk doc' := by rw [h]
+theorem lint_deterministic (cfg : AL.PW.Cfg) (isNum urlOk : String → Bool) (doc doc' : AL.Yaml.Node) (h : doc = doc') (lc : LabelCfg := {}) :
+    lint cfg isNum urlOk doc lc = lint cfg isNum urlOk doc' lc := by rw [h]
 
 end AL.C02R
